@@ -592,7 +592,7 @@ def run(ctx):
         same_value_case(ctx)
     # faults injected into the workbooks shipped with the repository
     realbooks.run_cases(ctx, realbooks.c09_case, realbooks.acyclic_books(), 10 if ctx.quick else 100, fraction=0.25)
-    i = 0
+    i = j = 0
     while not ctx.out_of_time():
         i += 1
         if i % 6 == 0:
@@ -603,7 +603,8 @@ def run(ctx):
         if any(o[0] == 'x' for o in wb.fresh_values(spec).values()):
             ctx.count('skipped_workbooks_with_failing_cells')
             continue
-        kind = kinds[i % len(kinds)]
+        j += 1
+        kind = kinds[j % len(kinds)]
         plan = plan_case(rng, spec, meta, kind)
         if plan is None:
             continue
